@@ -3,8 +3,10 @@ import numpy as np
 import segyio
 
 
-def cube_data(shape, seed):
-    """Seeded smooth + noise float32 cube, finite, deterministic for (shape, seed)."""
+def cube_data(shape, seed, dead=None):
+    """Seeded smooth + noise float32 cube, finite, deterministic for (shape, seed).  dead = 'tail' / 'head': the last /
+    first lines (enough to fill whole compression blocks) are dead traces, all zero: their compressed image is all
+    zero bytes."""
     rs = np.random.RandomState(seed % (2 ** 31))
     n_il, n_xl, n_s = shape
     i = np.arange(n_il, dtype=np.float32)[:, None, None]
@@ -12,7 +14,20 @@ def cube_data(shape, seed):
     s = np.arange(n_s, dtype=np.float32)[None, None, :]
     a = np.sin(0.3 * i + 0.2 * x + 0.15 * s) * 100.0 + np.cos(0.05 * s * (1 + 0.1 * i)) * 30.0
     a = a + rs.standard_normal(shape).astype(np.float32) * 5.0
-    return np.ascontiguousarray(a.astype(np.float32))
+    a = np.ascontiguousarray(a.astype(np.float32))
+    if dead:
+        n = min(n_il - 1, max(4, n_il // 2)) if n_il > 1 else 0
+        if n_il == 1:                       # a 2D section: dead traces along the second axis
+            k = max(1, n_xl // 2)
+            if dead == 'tail':
+                a[:, n_xl - k:, :] = 0
+            else:
+                a[:, :k, :] = 0
+        elif dead == 'tail':
+            a[n_il - n:, :, :] = 0
+        else:
+            a[:n, :, :] = 0
+    return a
 
 
 def _fill_header(h, il, xl, k, n_s, dt_us):
@@ -33,10 +48,10 @@ def _fill_header(h, il, xl, k, n_s, dt_us):
     })
 
 
-def make_segy_3d(path, shape, seed, fmt=1, il0=1, xl0=20, il_step=1, xl_step=1, dt_us=4000, drop=None):
+def make_segy_3d(path, shape, seed, fmt=1, il0=1, xl0=20, il_step=1, xl_step=1, dt_us=4000, drop=None, dead=None):
     """Regular (drop=None) or irregular (drop = set of (i, x) ordinals to leave out) 3D SEG-Y."""
     n_il, n_xl, n_s = shape
-    data = cube_data(shape, seed)
+    data = cube_data(shape, seed, dead)
     ilines = [il0 + il_step * i for i in range(n_il)]
     xlines = [xl0 + xl_step * x for x in range(n_xl)]
     spec = segyio.spec()
@@ -60,8 +75,8 @@ def make_segy_3d(path, shape, seed, fmt=1, il0=1, xl0=20, il_step=1, xl_step=1, 
     return data
 
 
-def make_segy_2d(path, n_traces, n_s, seed, fmt=1, dt_us=2000):
-    data = cube_data((1, n_traces, n_s), seed)[0]
+def make_segy_2d(path, n_traces, n_s, seed, fmt=1, dt_us=2000, dead=None):
+    data = cube_data((1, n_traces, n_s), seed, dead)[0]
     spec = segyio.spec()
     spec.format = fmt
     spec.samples = [float(dt_us / 1000.0 * k) for k in range(n_s)]
